@@ -101,6 +101,9 @@ class _FileProxy:
         return self
 
     def __exit__(self, *a):
+        w = _cur()
+        if w is not None and self._role == "w":
+            w.gate("close:" + self._name)   # buffered data not flushed yet reaches the file here
         return self._f.__exit__(*a)
 
 
@@ -216,7 +219,7 @@ def run_schedule(samples, sched_roles, workdir: Path):
                     continue
                 label = writer.pending
                 writer.step()
-                model_sched.append("TT" if label.startswith("flush:") else "T")
+                model_sched.append("TT" if label.startswith("flush:") else ("" if label.startswith("close:") else "T"))
             else:
                 if reader is None:
                     reader = make_reader()
@@ -271,7 +274,7 @@ def suite_monitor(tier: str, seed: int, mult: int) -> SuiteResult:
         configs = []
         # exhaustive: one and two updates, all merges of the writer gates with up to two reader runs
         for samples in ([2], [2, 5], [3, 1, 4]):
-            n_w = 3 * len([s for i, s in enumerate(samples) if s > max([0] + samples[:i])]) + 1
+            n_w = 4 * len([s for i, s in enumerate(samples) if s > max([0] + samples[:i])]) + 1
             for n_r in ((3, 6) if tier == "thorough" else (3, 5)):
                 configs.append((samples, n_w, n_r))
         scheds = []
